@@ -1,5 +1,6 @@
 SPECIFICATION SelectSpec
 CONSTANTS
+  Which = "select"
   DeepAlpha <- Alpha4
   DeepMax = 2
   WideAlpha <- AlphaAll
@@ -9,4 +10,4 @@ CONSTANTS
   ListMax = 2
   ScopeListMax = 1
 INVARIANT LawSelect
-POSTCONDITION VisitedSelect
+POSTCONDITION Visited
